@@ -24,48 +24,76 @@ use crate::algorithms::{ops::sbb, DoubleWord};
 /// ```
 #[inline(always)]
 pub fn addmul(mut lhs: &mut [u64], mut a: &[u64], mut b: &[u64]) -> bool {
+    #[cfg(recmo_uint_verif)]
+    crate::__verif::hit(crate::__verif::ADDMUL_CALL);
     // Trim zeros from `a`
     while let [0, rest @ ..] = a {
+        #[cfg(recmo_uint_verif)]
+        crate::__verif::hit(crate::__verif::ADDMUL_TRIM_A_LO);
         a = rest;
         if let [_, rest @ ..] = lhs {
             lhs = rest;
         }
     }
     while let [rest @ .., 0] = a {
+        #[cfg(recmo_uint_verif)]
+        crate::__verif::hit(crate::__verif::ADDMUL_TRIM_A_HI);
         a = rest;
     }
 
     // Trim zeros from `b`
     while let [0, rest @ ..] = b {
+        #[cfg(recmo_uint_verif)]
+        crate::__verif::hit(crate::__verif::ADDMUL_TRIM_B_LO);
         b = rest;
         if let [_, rest @ ..] = lhs {
             lhs = rest;
         }
     }
     while let [rest @ .., 0] = b {
+        #[cfg(recmo_uint_verif)]
+        crate::__verif::hit(crate::__verif::ADDMUL_TRIM_B_HI);
         b = rest;
     }
 
     if a.is_empty() || b.is_empty() {
+        #[cfg(recmo_uint_verif)]
+        crate::__verif::hit(crate::__verif::ADDMUL_RET_EMPTY_OPERAND);
         return false;
     }
     if lhs.is_empty() {
+        #[cfg(recmo_uint_verif)]
+        crate::__verif::hit(crate::__verif::ADDMUL_RET_EMPTY_LHS);
         return true;
     }
 
+    #[cfg(recmo_uint_verif)]
+    if b.len() > a.len() {
+        crate::__verif::hit(crate::__verif::ADDMUL_SWAP);
+    }
     let (a, b) = if b.len() > a.len() { (b, a) } else { (a, b) };
 
     // Iterate over limbs of `b` and add partial products to `lhs`.
     let mut overflow = false;
     for &b in b {
         if lhs.len() >= a.len() {
+            #[cfg(recmo_uint_verif)]
+            crate::__verif::hit(crate::__verif::ADDMUL_FULL_ROW);
             let (target, rest) = lhs.split_at_mut(a.len());
             let carry = addmul_nx1(target, a, b);
             let carry = add_nx1(rest, carry);
+            #[cfg(recmo_uint_verif)]
+            if carry != 0 {
+                crate::__verif::hit(crate::__verif::ADDMUL_ROW_CARRY_OUT);
+            }
             overflow |= carry != 0;
         } else {
+            #[cfg(recmo_uint_verif)]
+            crate::__verif::hit(crate::__verif::ADDMUL_SHORT_WINDOW);
             overflow = true;
             if lhs.is_empty() {
+                #[cfg(recmo_uint_verif)]
+                crate::__verif::hit(crate::__verif::ADDMUL_LHS_EXHAUSTED);
                 break;
             }
             addmul_nx1(lhs, &a[..lhs.len()], b);
